@@ -106,6 +106,11 @@ var ErrBoom = errors.New("boom failed")
 func Funcs() vuego.FuncMap {
 	return vuego.FuncMap{
 		"boom":  func(v any) (any, error) { return nil, ErrBoom },
+		// failing functions that hand back a NON-ZERO value next to the error (strconv / io style): the
+		// error still fails the render (docs/funcmap.md, Error Handling) whatever the first value is
+		"partial": func(v any) (any, error) { return v, ErrBoom },
+		"count3":  func(s string) (int, error) { return 3, ErrBoom },
+		"half":    func(s string) (string, error) { return "half-" + s, ErrBoom },
 		"shout": func(s string) string { return strings.ToUpper(s) + "!" },
 		"add":   func(a, b int) int { return a + b },
 		"repeat": func(s string, n int) string {
@@ -415,6 +420,12 @@ func All() []Program {
 			Data: map[string]vals.V{"who": s("f1WHO"), "rows": list("a", "b")}, Feat: []string{"fail", "late"}},
 		{Name: "fail-func-error-early", Fails: true, Files: map[string]string{"page.vuego": `<p>{{ who | boom }}</p><p>after</p>`},
 			Data: map[string]vals.V{"who": s("f2WHO")}, Feat: []string{"fail", "early"}},
+		{Name: "fail-func-partial-value", Fails: true, Files: map[string]string{"page.vuego": `<p>before</p><p>{{ who | partial }}</p><p>after</p>`},
+			Data: map[string]vals.V{"who": s("f2pWHO")}, Feat: []string{"fail", "early", "partial-value"}},
+		{Name: "fail-func-partial-int", Fails: true, Files: map[string]string{"page.vuego": `<p>before {{ who }}</p><p :title="who | half">reserved {{ who | count3 }}</p><p>after</p>`},
+			Data: map[string]vals.V{"who": s("f2qWHO")}, Feat: []string{"fail", "late", "partial-value"}},
+		{Name: "fail-func-partial-call", Fails: true, Files: map[string]string{"page.vuego": `<p>before</p><p v-if="count3(who) > 1">{{ half(who) }}</p><p>after</p>`},
+			Data: map[string]vals.V{"who": s("f2rWHO")}, Feat: []string{"fail", "early", "partial-value"}},
 		{Name: "fail-in-loop", Fails: true, Files: map[string]string{"page.vuego": `<p>before</p><ul><li v-for="r in rows"><b v-if="r.n > 10">{{ r.name | boom }}</b><i v-else>{{ r.name }}</i></li></ul>`},
 			Data: map[string]vals.V{"rows": recs("l1", "l2", "l3")}, Feat: []string{"fail", "loop"}},
 		// (the same failure with the collection spelled as a typed slice, an array, a slice of
